@@ -141,8 +141,10 @@ theorem apiSpawn_q (s : Sys) (t n) : Quiet s (apiSpawn s t n) := by
   · qpeel (setPc_q _ _ _); qpeel (emit_q _ _); exact spawnProc_q _ _
   all_goals (qpeel (setPc_q _ _ _); exact spawnProc_q _ _)
 
+theorem addDone_q (s : Sys) (i : IId) : Quiet s (addDone s i) := by
+  unfold addDone; done_q
 theorem doSkip_q (s : Sys) (t i) : Quiet s (doSkip s t i) := by
-  unfold doSkip; exact (onProcessEnd_q _ _ _).then (setPc_q _ _ _)
+  unfold doSkip; exact (addDone_q _ _).then ((onProcessEnd_q _ _ _).then (setPc_q _ _ _))
 
 theorem afterDeps_q (s : Sys) (t) : Quiet s (afterDeps s t) := setPc_q _ _ _
 
